@@ -28,8 +28,28 @@ def main(argv):
     except common.Infra as e:
         print(f"INFRA: {e}")
         return 2
-    except Exception:
+    except Exception as e:
         traceback.print_exc()
+        # An exception that was raised INSIDE the tree under test and that the harness does not treat as an
+        # observation cannot happen on the tree the check was built for; on another tree it means the code
+        # now raises where it did not, so the correspondence no longer checks.  That is not infrastructure
+        # trouble: report it (no failing input was established, the traceback is the replay).
+        koreo_src = os.path.join(str(common.REPO), "src", "koreo")
+        frames = traceback.extract_tb(e.__traceback__)
+        if not replay and frames and any(f.filename.startswith(koreo_src) for f in frames[-3:]):
+            rp = common.VERIF / "replay" / f"{prop}-{os.environ.get('VERIF_SEED', '0')}.json"
+            rp.parent.mkdir(exist_ok=True)
+            import json
+            rp.write_text(json.dumps({
+                "property": prop, "kind": "unproved",
+                "no_longer_checks": [{"kind": "correspondence-crash",
+                                      "what": "the tree under test raised an exception the harness has never seen "
+                                              "from the code it was built against",
+                                      "exception": f"{type(e).__name__}: {e}",
+                                      "traceback": traceback.format_exception(type(e), e, e.__traceback__)[-12:]}]},
+                indent=1))
+            print(f"VIOLATION property={prop} replay={rp} no-failing-input-found")
+            return 1
         print("INFRA: the check itself crashed")
         return 2
 
